@@ -85,6 +85,13 @@ def run(chk):
         lines, N = gen_case(chk.rng, i, chk.tier)
         cases.append(lines)
         Ns.append(N)
+    # managed streams pressed against a hard maximum for longer than the reservoir lasts (loud noise): the manager truncates packets,
+    # and every one of them must still be an audio packet the decoder accepts, or samples are lost
+    for (chn, rate, q) in ((1, 44100, "Q0.4:48"), (2, 44100, "Q0.6:96"), (1, 44100, "M48000:48000:-1"), (1, 22050, "M32000:32000:32000"), (2, 32000, "M64000:48000:16000")):
+        N = 450000 if chk.tier == "quick" else 900000
+        cases.append(["case %d" % len(cases), "enc %d %d %s %d %d 0 4096 %s" % (chn, rate, q, chk.rng.choice([1, 4]), chk.rng.randint(1, 10 ** 6),
+                                                                                  " ".join(map(str, partition(chk.rng, N))))])
+        Ns.append(N)
     res = vlib.run_harness_only("c04", cases, timeout=3000)
     crash, ofail, dis = [], [], []
     mcases, idx, expect = [], [], []
